@@ -1,17 +1,19 @@
 #!/bin/bash
-# seedbatch.sh C01 C03 ...  : evaluates /tmp/seed-<ID>/patch{1,2}.diff, results in /tmp/mut/results/
+# seedbatch.sh C01 C03 ...  : evaluates $SEED_PREFIX<ID>/patch{1,2}.diff (default /tmp/seed-), results in $RESULTS
 export MUT_DIR="${MUT_DIR:-/tmp/mut}"
-mkdir -p /tmp/mut/results
+SEED_PREFIX="${SEED_PREFIX:-/tmp/seed-}"
+RESULTS="${RESULTS:-/tmp/mut/results}"
+mkdir -p "$RESULTS"
 for id in "$@"; do
   for n in 1 2; do
-    p=/tmp/seed-$id/patch$n.diff
+    p=$SEED_PREFIX$id/patch$n.diff
     [ -f "$p" ] || continue
-    out=/tmp/mut/results/$id-$n.json
+    out=$RESULTS/$id-$n.json
     [ -f "$out" ] && continue
-    demo=/tmp/seed-$id/demo$n.rs
-    [ -f "$demo" ] || demo=/tmp/seed-$id/demo$n.sh
+    demo=$SEED_PREFIX$id/demo$n.rs
+    [ -f "$demo" ] || demo=$SEED_PREFIX$id/demo$n.sh
     [ -f "$demo" ] || demo=""
-    python3 /verif/tools/seedrun.py "$p" "$demo" auto > "$out.tmp" 2>&1 && mv "$out.tmp" "$out" || mv "$out.tmp" "$out.err"
+    if python3 /verif/tools/seedrun.py "$p" "$demo" auto > "$out.tmp" 2>&1; then mv "$out.tmp" "$out"; else mv "$out.tmp" "$out.err"; fi
   done
 done
 echo BATCH-DONE
